@@ -1,0 +1,493 @@
+// Copyright ©2026 The Gonum Authors. All rights reserved.
+// Use of this source code is governed by a BSD-style
+// license that can be found in the LICENSE file.
+
+//go:build verif
+
+package multi
+
+// Machine-checked contracts for the map-backed multigraphs (verification
+// hook, build tag verif; this file contains comments only). See /verif/DESIGN.md.
+//
+// dgInv (wdgInv for the weighted type) is the representation invariant of
+// DirectedGraph: all top-level maps exist, stored second- and third-level maps
+// are non-nil and not shared, stored third-level (line) maps are non-empty
+// (second-level maps may be empty), the forward and reverse adjacency mirror
+// each other line by line (same keys, same stored values, equal lengths),
+// every endpoint is a node, a stored node has the ID it is stored under, a
+// stored line is non-nil with the ID and endpoint IDs it is stored under, every
+// stored ID pool
+// satisfies uid.setInv and shares nothing with another pool, the live line IDs
+// of (u,v) are in use in lineIDs[u][v], and the node ID pool's used set is
+// exactly the node set. ugInv / wugInv are the same for the undirected types,
+// where lines[u][v] and lines[v][u] are distinct maps with equal key sets and
+// the pool of {u,v} is lineIDs[min(u,v)][max(u,v)]. The invariants are
+// established by the constructors and preserved by every mutator, hence hold
+// after every history of operations.
+//
+// Known finding (all four types): RemoveLine(fid, tid, id) with both nodes
+// present and no ID pool for the pair ends in g.lineIDs[..][..].Release(id) on
+// a nil *uid.Set; the obligation RemoveLine/call.pre[... Release: setInv(s)]
+// fails for exactly that case although the documentation promises a no-op.
+
+//@ spec dfl(g *DirectedGraph, u int, v int) bool = has(g.from, u) && has(g.from[u], v)
+//@ spec dtl(g *DirectedGraph, u int, v int) bool = has(g.to, u) && has(g.to[u], v)
+//@ spec dfll(g *DirectedGraph, u int, v int, l int) bool = has(g.from, u) && has(g.from[u], v) && has(g.from[u][v], l)
+//@ spec dtll(g *DirectedGraph, u int, v int, l int) bool = has(g.to, u) && has(g.to[u], v) && has(g.to[u][v], l)
+//@ spec dids(g *DirectedGraph, u int, v int) bool = has(g.lineIDs, u) && has(g.lineIDs[u], v)
+
+//@ spec dgInv(g *DirectedGraph) bool = g != nil && g.nodes != nil && g.from != nil && g.to != nil && g.from != g.to && g.lineIDs != nil && uid.setInv(g.nodeIDs) &&
+//@   forall(u, has(g.from, u) ==> g.from[u] != nil) && forall(u, has(g.to, u) ==> g.to[u] != nil) &&
+//@   forall(u, forall(v, has(g.from, u) && has(g.from, v) && u != v ==> g.from[u] != g.from[v])) &&
+//@   forall(u, forall(v, has(g.to, u) && has(g.to, v) && u != v ==> g.to[u] != g.to[v])) &&
+//@   forall(u, forall(v, has(g.from, u) && has(g.to, v) ==> g.from[u] != g.to[v])) &&
+//@   forall(u, forall(v, dfl(g, u, v) ==> g.from[u][v] != nil && len(g.from[u][v]) > 0)) &&
+//@   forall(u, forall(v, dtl(g, u, v) ==> g.to[u][v] != nil && len(g.to[u][v]) > 0)) &&
+//@   forall(u, forall(v, forall(x, forall(y, dfl(g, u, v) && dfl(g, x, y) && !(u == x && v == y) ==> g.from[u][v] != g.from[x][y])))) &&
+//@   forall(u, forall(v, forall(x, forall(y, dtl(g, u, v) && dtl(g, x, y) && !(u == x && v == y) ==> g.to[u][v] != g.to[x][y])))) &&
+//@   forall(u, forall(v, forall(x, forall(y, dfl(g, u, v) && dtl(g, x, y) ==> g.from[u][v] != g.to[x][y])))) &&
+//@   forall(u, forall(v, dfl(g, u, v) == dtl(g, v, u))) &&
+//@   forall(u, forall(v, dfl(g, u, v) ==> len(g.from[u][v]) == len(g.to[v][u]))) &&
+//@   forall(u, forall(v, forall(l, dfll(g, u, v, l) == dtll(g, v, u, l)))) &&
+//@   forall(u, forall(v, dfl(g, u, v) ==> has(g.nodes, u) && has(g.nodes, v))) &&
+//@   forall(u, has(g.nodes, u) ==> g.nodes[u] != nil && g.nodes[u].ID() == u) &&
+//@   forall(u, forall(v, forall(l, dfll(g, u, v, l) ==> g.from[u][v][l] != nil && g.from[u][v][l] == g.to[v][u][l] && g.from[u][v][l].ID() == l &&
+//@     g.from[u][v][l].From() != nil && g.from[u][v][l].To() != nil && g.from[u][v][l].From().ID() == u && g.from[u][v][l].To().ID() == v))) &&
+//@   forall(u, has(g.lineIDs, u) ==> g.lineIDs[u] != nil) &&
+//@   forall(u, forall(v, has(g.lineIDs, u) && has(g.lineIDs, v) && u != v ==> g.lineIDs[u] != g.lineIDs[v])) &&
+//@   forall(u, forall(v, dids(g, u, v) ==> uid.setInv(g.lineIDs[u][v]) && g.lineIDs[u][v] != g.nodeIDs &&
+//@     g.lineIDs[u][v].used != g.nodeIDs.used && g.lineIDs[u][v].used != g.nodeIDs.free && g.lineIDs[u][v].free != g.nodeIDs.used && g.lineIDs[u][v].free != g.nodeIDs.free)) &&
+//@   forall(u, forall(v, forall(x, forall(y, dids(g, u, v) && dids(g, x, y) && !(u == x && v == y) ==> g.lineIDs[u][v] != g.lineIDs[x][y] &&
+//@     g.lineIDs[u][v].used != g.lineIDs[x][y].used && g.lineIDs[u][v].used != g.lineIDs[x][y].free && g.lineIDs[u][v].free != g.lineIDs[x][y].free)))) &&
+//@   forall(u, forall(v, forall(l, dfll(g, u, v, l) ==> dids(g, u, v) && has(g.lineIDs[u][v].used, l)))) &&
+//@   forall(u, has(g.nodes, u) == has(g.nodeIDs.used, u))
+
+//@ func NewDirectedGraph props: C12
+//@ ensures dgInv(result)
+//@ ensures forall(u, !has(result.nodes, u)) && forall(u, !has(result.from, u)) && forall(u, !has(result.to, u))
+
+//@ func DirectedGraph.AddNode props: C12
+//@ requires dgInv(g) && n != nil
+//@ modifies g.nodes, g.nodeIDs.used, g.nodeIDs.free, g.nodeIDs.maxID
+//@ valid !has(g.nodes, n.ID())
+//@ panics iff !valid, before-writes
+//@ ensures dgInv(g)
+//@ ensures forall(u, has(g.nodes, u) == (old(has(g.nodes, u)) || u == n.ID()))
+//@ ensures g.nodes[n.ID()] == n && forall(u, u != n.ID() ==> g.nodes[u] == old(g.nodes[u]))
+
+//@ func DirectedGraph.HasEdgeFromTo props: C12
+//@ requires dgInv(g)
+//@ ensures result == dfl(g, uid, vid)
+
+//@ func DirectedGraph.HasEdgeBetween props: C12
+//@ requires dgInv(g)
+//@ ensures result == (dfl(g, xid, yid) || dfl(g, yid, xid))
+
+//@ func DirectedGraph.Node props: C12
+//@ requires dgInv(g)
+//@ ensures (result != nil) == has(g.nodes, id)
+//@ ensures result == g.nodes[id] && (result != nil ==> result.ID() == id)
+
+//@ func DirectedGraph.NewNode props: C12
+//@ requires dgInv(g)
+//@ requires g.nodeIDs.maxID != uid.Max || exists(x, 0, uid.Max, !has(g.nodeIDs.used, x))
+//@ option may-panic
+//@ ensures result != nil && !has(g.nodes, result.ID())
+
+//@ func DirectedGraph.NodeWithID props: C12
+//@ requires dgInv(g)
+//@ ensures new == !has(g.nodes, id)
+//@ ensures n != nil && n.ID() == id && (!new ==> n == g.nodes[id])
+
+//@ func DirectedGraph.RemoveLine props: C12
+//@ requires dgInv(g)
+//@ modifies g.from[fid], g.to[tid], g.from[fid][tid], g.to[tid][fid], g.lineIDs[fid][tid].used, g.lineIDs[fid][tid].free
+//@ ensures dgInv(g)
+//@ ensures forall(u, forall(v, forall(l, dfll(g, u, v, l) == (old(dfll(g, u, v, l)) && !(u == fid && v == tid && l == id)))))
+//@ ensures forall(u, forall(v, (dfl(g, u, v) ==> old(dfl(g, u, v))) && (!(u == fid && v == tid) ==> dfl(g, u, v) == old(dfl(g, u, v)))))
+//@ ensures forall(u, forall(v, forall(l, dfll(g, u, v, l) ==> g.from[u][v][l] == old(g.from[u][v][l]))))
+
+//@ func DirectedGraph.SetLine props: C12
+//@ let fid = l.From().ID()
+//@ let tid = l.To().ID()
+//@ requires dgInv(g) && l != nil && l.From() != nil && l.To() != nil
+//@ modifies g.nodes, g.nodeIDs.used, g.nodeIDs.free, g.nodeIDs.maxID, g.from, g.to, g.lineIDs, g.from[fid], g.to[tid], g.from[fid][tid], g.to[tid][fid], g.lineIDs[fid],
+//@   g.lineIDs[fid][tid].used, g.lineIDs[fid][tid].free, g.lineIDs[fid][tid].maxID
+//@ ensures dgInv(g)
+//@ ensures forall(u, has(g.nodes, u) == (old(has(g.nodes, u)) || u == fid || u == tid))
+//@ ensures forall(u, forall(v, forall(x, dfll(g, u, v, x) == (old(dfll(g, u, v, x)) || (u == fid && v == tid && x == l.ID())))))
+//@ ensures forall(u, forall(v, dfl(g, u, v) == (old(dfl(g, u, v)) || (u == fid && v == tid))))
+//@ ensures g.from[fid][tid][l.ID()] == l && g.to[tid][fid][l.ID()] == l && g.nodes[tid] == l.To() && (fid != tid ==> g.nodes[fid] == l.From())
+//@ ensures forall(u, u != fid && u != tid ==> g.nodes[u] == old(g.nodes[u]))
+//@ ensures forall(u, forall(v, forall(x, old(dfll(g, u, v, x)) && !(u == fid && v == tid && x == l.ID()) ==> g.from[u][v][x] == old(g.from[u][v][x]))))
+
+//@ func DirectedGraph.RemoveNode props: C12
+//@ requires dgInv(g)
+//@ modifies g.nodes, g.nodeIDs.used, g.nodeIDs.free, g.from, g.to, all(g.from[id])
+//@ ensures dgInv(g)
+//@ ensures forall(u, has(g.nodes, u) == (old(has(g.nodes, u)) && u != id))
+//@ ensures forall(u, forall(v, forall(l, dfll(g, u, v, l) == (old(dfll(g, u, v, l)) && u != id && v != id))))
+//@ ensures forall(u, forall(v, dfl(g, u, v) == (old(dfl(g, u, v)) && u != id && v != id)))
+//@ ensures forall(u, u != id ==> g.nodes[u] == old(g.nodes[u]))
+//@ ensures forall(u, forall(v, forall(l, dfll(g, u, v, l) ==> g.from[u][v][l] == old(g.from[u][v][l]))))
+//@ loop 1: invariant forall(u, forall(v, forall(l, dfll(g, u, v, l) == atloop(dfll(g, u, v, l)))))
+//@ invariant forall(u, forall(v, dfl(g, u, v) == atloop(dfl(g, u, v))))
+//@ invariant forall(u, forall(v, forall(l, dtll(g, u, v, l) == (atloop(dtll(g, u, v, l)) && !(v == id && seen(u))))))
+//@ invariant forall(u, forall(v, dtl(g, u, v) == (atloop(dtl(g, u, v)) && !(v == id && seen(u)))))
+//@ invariant forall(u, forall(v, dtl(g, u, v) ==> g.to[u][v] == atloop(g.to[u][v])))
+//@ invariant forall(u, forall(v, dfl(g, u, v) ==> g.from[u][v] == atloop(g.from[u][v])))
+//@ loop 2: invariant forall(u, forall(v, forall(l, dtll(g, u, v, l) == atloop(dtll(g, u, v, l)))))
+//@ invariant forall(u, forall(v, dtl(g, u, v) == atloop(dtl(g, u, v))))
+//@ invariant forall(u, forall(v, forall(l, dfll(g, u, v, l) == (atloop(dfll(g, u, v, l)) && !(v == id && seen(u))))))
+//@ invariant forall(u, forall(v, dfl(g, u, v) == (atloop(dfl(g, u, v)) && !(v == id && seen(u)))))
+//@ invariant forall(u, forall(v, dtl(g, u, v) ==> g.to[u][v] == atloop(g.to[u][v])))
+//@ invariant forall(u, forall(v, dfl(g, u, v) ==> g.from[u][v] == atloop(g.from[u][v])))
+
+//@ func DirectedGraph.NewLine props: C12
+//@ requires dgInv(g) && from != nil && to != nil
+//@ requires dids(g, from.ID(), to.ID()) ==> g.lineIDs[from.ID()][to.ID()].maxID != uid.Max || exists(x, 0, uid.Max, !has(g.lineIDs[from.ID()][to.ID()].used, x))
+//@ modifies g.lineIDs, g.lineIDs[from.ID()]
+//@ option may-panic
+//@ ensures dgInv(g)
+//@ ensures result != nil && result.From() == from && result.To() == to
+//@ ensures dids(g, from.ID(), to.ID()) && !has(g.lineIDs[from.ID()][to.ID()].used, result.ID())
+//@ ensures !dfll(g, from.ID(), to.ID(), result.ID())
+
+//@ spec ul(g *UndirectedGraph, u int, v int) bool = has(g.lines, u) && has(g.lines[u], v)
+//@ spec ull(g *UndirectedGraph, u int, v int, l int) bool = has(g.lines, u) && has(g.lines[u], v) && has(g.lines[u][v], l)
+//@ spec uids(g *UndirectedGraph, u int, v int) bool = has(g.lineIDs, u) && has(g.lineIDs[u], v)
+
+//@ spec ugInv(g *UndirectedGraph) bool = g != nil && g.nodes != nil && g.lines != nil && g.lineIDs != nil && uid.setInv(g.nodeIDs) &&
+//@   forall(u, has(g.lines, u) ==> g.lines[u] != nil) &&
+//@   forall(u, forall(v, has(g.lines, u) && has(g.lines, v) && u != v ==> g.lines[u] != g.lines[v])) &&
+//@   forall(u, forall(v, ul(g, u, v) ==> g.lines[u][v] != nil && len(g.lines[u][v]) > 0)) &&
+//@   forall(u, forall(v, forall(x, forall(y, ul(g, u, v) && ul(g, x, y) && !(u == x && v == y) ==> g.lines[u][v] != g.lines[x][y])))) &&
+//@   forall(u, forall(v, ul(g, u, v) == ul(g, v, u))) &&
+//@   forall(u, forall(v, ul(g, u, v) ==> len(g.lines[u][v]) == len(g.lines[v][u]))) &&
+//@   forall(u, forall(v, forall(l, ull(g, u, v, l) == ull(g, v, u, l)))) &&
+//@   forall(u, forall(v, ul(g, u, v) ==> has(g.nodes, u) && has(g.nodes, v))) &&
+//@   forall(u, has(g.nodes, u) ==> g.nodes[u] != nil && g.nodes[u].ID() == u) &&
+//@   forall(u, forall(v, forall(l, ull(g, u, v, l) ==> g.lines[u][v][l] != nil && g.lines[u][v][l] == g.lines[v][u][l] && g.lines[u][v][l].ID() == l &&
+//@     g.lines[u][v][l].From() != nil && g.lines[u][v][l].To() != nil &&
+//@     ((g.lines[u][v][l].From().ID() == u && g.lines[u][v][l].To().ID() == v) || (g.lines[u][v][l].From().ID() == v && g.lines[u][v][l].To().ID() == u))))) &&
+//@   forall(u, has(g.lineIDs, u) ==> g.lineIDs[u] != nil) &&
+//@   forall(u, forall(v, has(g.lineIDs, u) && has(g.lineIDs, v) && u != v ==> g.lineIDs[u] != g.lineIDs[v])) &&
+//@   forall(u, forall(v, uids(g, u, v) ==> uid.setInv(g.lineIDs[u][v]) && g.lineIDs[u][v] != g.nodeIDs &&
+//@     g.lineIDs[u][v].used != g.nodeIDs.used && g.lineIDs[u][v].used != g.nodeIDs.free && g.lineIDs[u][v].free != g.nodeIDs.used && g.lineIDs[u][v].free != g.nodeIDs.free)) &&
+//@   forall(u, forall(v, forall(x, forall(y, uids(g, u, v) && uids(g, x, y) && !(u == x && v == y) ==> g.lineIDs[u][v] != g.lineIDs[x][y] &&
+//@     g.lineIDs[u][v].used != g.lineIDs[x][y].used && g.lineIDs[u][v].used != g.lineIDs[x][y].free && g.lineIDs[u][v].free != g.lineIDs[x][y].free)))) &&
+//@   forall(u, forall(v, forall(l, ull(g, u, v, l) && u <= v ==> uids(g, u, v) && has(g.lineIDs[u][v].used, l)))) &&
+//@   forall(u, has(g.nodes, u) == has(g.nodeIDs.used, u))
+
+//@ func NewUndirectedGraph props: C12
+//@ ensures ugInv(result)
+//@ ensures forall(u, !has(result.nodes, u)) && forall(u, !has(result.lines, u))
+
+//@ func UndirectedGraph.AddNode props: C12
+//@ requires ugInv(g) && n != nil
+//@ modifies g.nodes, g.nodeIDs.used, g.nodeIDs.free, g.nodeIDs.maxID
+//@ valid !has(g.nodes, n.ID())
+//@ panics iff !valid, before-writes
+//@ ensures ugInv(g)
+//@ ensures forall(u, has(g.nodes, u) == (old(has(g.nodes, u)) || u == n.ID()))
+//@ ensures g.nodes[n.ID()] == n && forall(u, u != n.ID() ==> g.nodes[u] == old(g.nodes[u]))
+
+//@ func UndirectedGraph.HasEdgeBetween props: C12
+//@ requires ugInv(g)
+//@ ensures result == ul(g, xid, yid)
+
+//@ func UndirectedGraph.Node props: C12
+//@ requires ugInv(g)
+//@ ensures (result != nil) == has(g.nodes, id)
+//@ ensures result == g.nodes[id] && (result != nil ==> result.ID() == id)
+
+//@ func UndirectedGraph.NewNode props: C12
+//@ requires ugInv(g)
+//@ requires g.nodeIDs.maxID != uid.Max || exists(x, 0, uid.Max, !has(g.nodeIDs.used, x))
+//@ option may-panic
+//@ ensures result != nil && !has(g.nodes, result.ID())
+
+//@ func UndirectedGraph.NodeWithID props: C12
+//@ requires ugInv(g)
+//@ ensures new == !has(g.nodes, id)
+//@ ensures n != nil && n.ID() == id && (!new ==> n == g.nodes[id])
+
+//@ func UndirectedGraph.RemoveLine props: C12
+//@ requires ugInv(g)
+//@ modifies g.lines[fid], g.lines[tid], g.lines[fid][tid], g.lines[tid][fid], g.lineIDs[min(fid, tid)][max(fid, tid)].used, g.lineIDs[min(fid, tid)][max(fid, tid)].free
+//@ ensures ugInv(g)
+//@ ensures forall(u, forall(v, forall(l, ull(g, u, v, l) == (old(ull(g, u, v, l)) && !(((u == fid && v == tid) || (u == tid && v == fid)) && l == id)))))
+//@ ensures forall(u, forall(v, (ul(g, u, v) ==> old(ul(g, u, v))) && (!((u == fid && v == tid) || (u == tid && v == fid)) ==> ul(g, u, v) == old(ul(g, u, v)))))
+//@ ensures forall(u, forall(v, forall(l, ull(g, u, v, l) ==> g.lines[u][v][l] == old(g.lines[u][v][l]))))
+
+//@ func UndirectedGraph.SetLine props: C12
+//@ let fid = l.From().ID()
+//@ let tid = l.To().ID()
+//@ let xid = min(l.From().ID(), l.To().ID())
+//@ let yid = max(l.From().ID(), l.To().ID())
+//@ requires ugInv(g) && l != nil && l.From() != nil && l.To() != nil
+//@ modifies g.nodes, g.nodeIDs.used, g.nodeIDs.free, g.nodeIDs.maxID, g.lines, g.lineIDs, g.lines[fid], g.lines[tid], g.lines[fid][tid], g.lines[tid][fid], g.lineIDs[xid],
+//@   g.lineIDs[xid][yid].used, g.lineIDs[xid][yid].free, g.lineIDs[xid][yid].maxID
+//@ ensures ugInv(g)
+//@ ensures forall(u, has(g.nodes, u) == (old(has(g.nodes, u)) || u == fid || u == tid))
+//@ ensures forall(u, forall(v, forall(x, ull(g, u, v, x) == (old(ull(g, u, v, x)) || (((u == fid && v == tid) || (u == tid && v == fid)) && x == l.ID())))))
+//@ ensures forall(u, forall(v, ul(g, u, v) == (old(ul(g, u, v)) || (u == fid && v == tid) || (u == tid && v == fid))))
+//@ ensures g.lines[fid][tid][l.ID()] == l && g.lines[tid][fid][l.ID()] == l && g.nodes[tid] == l.To() && (fid != tid ==> g.nodes[fid] == l.From())
+//@ ensures forall(u, u != fid && u != tid ==> g.nodes[u] == old(g.nodes[u]))
+//@ ensures forall(u, forall(v, forall(x, old(ull(g, u, v, x)) && !(((u == fid && v == tid) || (u == tid && v == fid)) && x == l.ID()) ==> g.lines[u][v][x] == old(g.lines[u][v][x]))))
+
+//@ func UndirectedGraph.RemoveNode props: C12
+//@ requires ugInv(g)
+//@ modifies g.nodes, g.nodeIDs.used, g.nodeIDs.free, g.lines, all(g.lines[id])
+//@ ensures ugInv(g)
+//@ ensures forall(u, has(g.nodes, u) == (old(has(g.nodes, u)) && u != id))
+//@ ensures forall(u, forall(v, forall(l, ull(g, u, v, l) == (old(ull(g, u, v, l)) && u != id && v != id))))
+//@ ensures forall(u, forall(v, ul(g, u, v) == (old(ul(g, u, v)) && u != id && v != id)))
+//@ ensures forall(u, u != id ==> g.nodes[u] == old(g.nodes[u]))
+//@ ensures forall(u, forall(v, forall(l, ull(g, u, v, l) ==> g.lines[u][v][l] == old(g.lines[u][v][l]))))
+//@ loop 1: invariant forall(u, forall(v, forall(l, ull(g, u, v, l) == (atloop(ull(g, u, v, l)) && !(v == id && seen(u))))))
+//@ invariant forall(u, forall(v, ul(g, u, v) == (atloop(ul(g, u, v)) && !(v == id && seen(u)))))
+//@ invariant forall(u, forall(v, ul(g, u, v) ==> g.lines[u][v] == atloop(g.lines[u][v])))
+
+//@ func UndirectedGraph.NewLine props: C12
+//@ let xid = min(from.ID(), to.ID())
+//@ let yid = max(from.ID(), to.ID())
+//@ requires ugInv(g) && from != nil && to != nil
+//@ requires uids(g, xid, yid) ==> g.lineIDs[xid][yid].maxID != uid.Max || exists(x, 0, uid.Max, !has(g.lineIDs[xid][yid].used, x))
+//@ modifies g.lineIDs, g.lineIDs[xid]
+//@ option may-panic
+//@ ensures ugInv(g)
+//@ ensures result != nil && result.From() == from && result.To() == to
+//@ ensures uids(g, xid, yid) && !has(g.lineIDs[xid][yid].used, result.ID())
+//@ ensures !ull(g, from.ID(), to.ID(), result.ID()) && !ull(g, to.ID(), from.ID(), result.ID())
+
+//@ spec wdfl(g *WeightedDirectedGraph, u int, v int) bool = has(g.from, u) && has(g.from[u], v)
+//@ spec wdtl(g *WeightedDirectedGraph, u int, v int) bool = has(g.to, u) && has(g.to[u], v)
+//@ spec wdfll(g *WeightedDirectedGraph, u int, v int, l int) bool = has(g.from, u) && has(g.from[u], v) && has(g.from[u][v], l)
+//@ spec wdtll(g *WeightedDirectedGraph, u int, v int, l int) bool = has(g.to, u) && has(g.to[u], v) && has(g.to[u][v], l)
+//@ spec wdids(g *WeightedDirectedGraph, u int, v int) bool = has(g.lineIDs, u) && has(g.lineIDs[u], v)
+
+//@ spec wdgInv(g *WeightedDirectedGraph) bool = g != nil && g.nodes != nil && g.from != nil && g.to != nil && g.from != g.to && g.lineIDs != nil && uid.setInv(g.nodeIDs) &&
+//@   forall(u, has(g.from, u) ==> g.from[u] != nil) && forall(u, has(g.to, u) ==> g.to[u] != nil) &&
+//@   forall(u, forall(v, has(g.from, u) && has(g.from, v) && u != v ==> g.from[u] != g.from[v])) &&
+//@   forall(u, forall(v, has(g.to, u) && has(g.to, v) && u != v ==> g.to[u] != g.to[v])) &&
+//@   forall(u, forall(v, has(g.from, u) && has(g.to, v) ==> g.from[u] != g.to[v])) &&
+//@   forall(u, forall(v, wdfl(g, u, v) ==> g.from[u][v] != nil && len(g.from[u][v]) > 0)) &&
+//@   forall(u, forall(v, wdtl(g, u, v) ==> g.to[u][v] != nil && len(g.to[u][v]) > 0)) &&
+//@   forall(u, forall(v, forall(x, forall(y, wdfl(g, u, v) && wdfl(g, x, y) && !(u == x && v == y) ==> g.from[u][v] != g.from[x][y])))) &&
+//@   forall(u, forall(v, forall(x, forall(y, wdtl(g, u, v) && wdtl(g, x, y) && !(u == x && v == y) ==> g.to[u][v] != g.to[x][y])))) &&
+//@   forall(u, forall(v, forall(x, forall(y, wdfl(g, u, v) && wdtl(g, x, y) ==> g.from[u][v] != g.to[x][y])))) &&
+//@   forall(u, forall(v, wdfl(g, u, v) == wdtl(g, v, u))) &&
+//@   forall(u, forall(v, wdfl(g, u, v) ==> len(g.from[u][v]) == len(g.to[v][u]))) &&
+//@   forall(u, forall(v, forall(l, wdfll(g, u, v, l) == wdtll(g, v, u, l)))) &&
+//@   forall(u, forall(v, wdfl(g, u, v) ==> has(g.nodes, u) && has(g.nodes, v))) &&
+//@   forall(u, has(g.nodes, u) ==> g.nodes[u] != nil && g.nodes[u].ID() == u) &&
+//@   forall(u, forall(v, forall(l, wdfll(g, u, v, l) ==> g.from[u][v][l] != nil && g.from[u][v][l] == g.to[v][u][l] && g.from[u][v][l].ID() == l &&
+//@     g.from[u][v][l].From() != nil && g.from[u][v][l].To() != nil && g.from[u][v][l].From().ID() == u && g.from[u][v][l].To().ID() == v))) &&
+//@   forall(u, has(g.lineIDs, u) ==> g.lineIDs[u] != nil) &&
+//@   forall(u, forall(v, has(g.lineIDs, u) && has(g.lineIDs, v) && u != v ==> g.lineIDs[u] != g.lineIDs[v])) &&
+//@   forall(u, forall(v, wdids(g, u, v) ==> uid.setInv(g.lineIDs[u][v]) && g.lineIDs[u][v] != g.nodeIDs &&
+//@     g.lineIDs[u][v].used != g.nodeIDs.used && g.lineIDs[u][v].used != g.nodeIDs.free && g.lineIDs[u][v].free != g.nodeIDs.used && g.lineIDs[u][v].free != g.nodeIDs.free)) &&
+//@   forall(u, forall(v, forall(x, forall(y, wdids(g, u, v) && wdids(g, x, y) && !(u == x && v == y) ==> g.lineIDs[u][v] != g.lineIDs[x][y] &&
+//@     g.lineIDs[u][v].used != g.lineIDs[x][y].used && g.lineIDs[u][v].used != g.lineIDs[x][y].free && g.lineIDs[u][v].free != g.lineIDs[x][y].free)))) &&
+//@   forall(u, forall(v, forall(l, wdfll(g, u, v, l) ==> wdids(g, u, v) && has(g.lineIDs[u][v].used, l)))) &&
+//@   forall(u, has(g.nodes, u) == has(g.nodeIDs.used, u))
+
+//@ func NewWeightedDirectedGraph props: C12
+//@ ensures wdgInv(result)
+//@ ensures forall(u, !has(result.nodes, u)) && forall(u, !has(result.from, u)) && forall(u, !has(result.to, u))
+
+//@ func WeightedDirectedGraph.AddNode props: C12
+//@ requires wdgInv(g) && n != nil
+//@ modifies g.nodes, g.nodeIDs.used, g.nodeIDs.free, g.nodeIDs.maxID
+//@ valid !has(g.nodes, n.ID())
+//@ panics iff !valid, before-writes
+//@ ensures wdgInv(g)
+//@ ensures forall(u, has(g.nodes, u) == (old(has(g.nodes, u)) || u == n.ID()))
+//@ ensures g.nodes[n.ID()] == n && forall(u, u != n.ID() ==> g.nodes[u] == old(g.nodes[u]))
+
+//@ func WeightedDirectedGraph.HasEdgeFromTo props: C12
+//@ requires wdgInv(g)
+//@ ensures result == wdfl(g, uid, vid)
+
+//@ func WeightedDirectedGraph.HasEdgeBetween props: C12
+//@ requires wdgInv(g)
+//@ ensures result == (wdfl(g, xid, yid) || wdfl(g, yid, xid))
+
+//@ func WeightedDirectedGraph.Node props: C12
+//@ requires wdgInv(g)
+//@ ensures (result != nil) == has(g.nodes, id)
+//@ ensures result == g.nodes[id] && (result != nil ==> result.ID() == id)
+
+//@ func WeightedDirectedGraph.NewNode props: C12
+//@ requires wdgInv(g)
+//@ requires g.nodeIDs.maxID != uid.Max || exists(x, 0, uid.Max, !has(g.nodeIDs.used, x))
+//@ option may-panic
+//@ ensures result != nil && !has(g.nodes, result.ID())
+
+//@ func WeightedDirectedGraph.NodeWithID props: C12
+//@ requires wdgInv(g)
+//@ ensures new == !has(g.nodes, id)
+//@ ensures n != nil && n.ID() == id && (!new ==> n == g.nodes[id])
+
+//@ func WeightedDirectedGraph.RemoveLine props: C12
+//@ requires wdgInv(g)
+//@ modifies g.from[fid], g.to[tid], g.from[fid][tid], g.to[tid][fid], g.lineIDs[fid][tid].used, g.lineIDs[fid][tid].free
+//@ ensures wdgInv(g)
+//@ ensures forall(u, forall(v, forall(l, wdfll(g, u, v, l) == (old(wdfll(g, u, v, l)) && !(u == fid && v == tid && l == id)))))
+//@ ensures forall(u, forall(v, (wdfl(g, u, v) ==> old(wdfl(g, u, v))) && (!(u == fid && v == tid) ==> wdfl(g, u, v) == old(wdfl(g, u, v)))))
+//@ ensures forall(u, forall(v, forall(l, wdfll(g, u, v, l) ==> g.from[u][v][l] == old(g.from[u][v][l]))))
+
+//@ func WeightedDirectedGraph.SetWeightedLine props: C12
+//@ let fid = l.From().ID()
+//@ let tid = l.To().ID()
+//@ requires wdgInv(g) && l != nil && l.From() != nil && l.To() != nil
+//@ modifies g.nodes, g.nodeIDs.used, g.nodeIDs.free, g.nodeIDs.maxID, g.from, g.to, g.lineIDs, g.from[fid], g.to[tid], g.from[fid][tid], g.to[tid][fid], g.lineIDs[fid],
+//@   g.lineIDs[fid][tid].used, g.lineIDs[fid][tid].free, g.lineIDs[fid][tid].maxID
+//@ ensures wdgInv(g)
+//@ ensures forall(u, has(g.nodes, u) == (old(has(g.nodes, u)) || u == fid || u == tid))
+//@ ensures forall(u, forall(v, forall(x, wdfll(g, u, v, x) == (old(wdfll(g, u, v, x)) || (u == fid && v == tid && x == l.ID())))))
+//@ ensures forall(u, forall(v, wdfl(g, u, v) == (old(wdfl(g, u, v)) || (u == fid && v == tid))))
+//@ ensures g.from[fid][tid][l.ID()] == l && g.to[tid][fid][l.ID()] == l && g.nodes[tid] == l.To() && (fid != tid ==> g.nodes[fid] == l.From())
+//@ ensures forall(u, u != fid && u != tid ==> g.nodes[u] == old(g.nodes[u]))
+//@ ensures forall(u, forall(v, forall(x, old(wdfll(g, u, v, x)) && !(u == fid && v == tid && x == l.ID()) ==> g.from[u][v][x] == old(g.from[u][v][x]))))
+
+//@ func WeightedDirectedGraph.RemoveNode props: C12
+//@ requires wdgInv(g)
+//@ modifies g.nodes, g.nodeIDs.used, g.nodeIDs.free, g.from, g.to, all(g.from[id])
+//@ ensures wdgInv(g)
+//@ ensures forall(u, has(g.nodes, u) == (old(has(g.nodes, u)) && u != id))
+//@ ensures forall(u, forall(v, forall(l, wdfll(g, u, v, l) == (old(wdfll(g, u, v, l)) && u != id && v != id))))
+//@ ensures forall(u, forall(v, wdfl(g, u, v) == (old(wdfl(g, u, v)) && u != id && v != id)))
+//@ ensures forall(u, u != id ==> g.nodes[u] == old(g.nodes[u]))
+//@ ensures forall(u, forall(v, forall(l, wdfll(g, u, v, l) ==> g.from[u][v][l] == old(g.from[u][v][l]))))
+//@ loop 1: invariant forall(u, forall(v, forall(l, wdfll(g, u, v, l) == atloop(wdfll(g, u, v, l)))))
+//@ invariant forall(u, forall(v, wdfl(g, u, v) == atloop(wdfl(g, u, v))))
+//@ invariant forall(u, forall(v, forall(l, wdtll(g, u, v, l) == (atloop(wdtll(g, u, v, l)) && !(v == id && seen(u))))))
+//@ invariant forall(u, forall(v, wdtl(g, u, v) == (atloop(wdtl(g, u, v)) && !(v == id && seen(u)))))
+//@ invariant forall(u, forall(v, wdtl(g, u, v) ==> g.to[u][v] == atloop(g.to[u][v])))
+//@ invariant forall(u, forall(v, wdfl(g, u, v) ==> g.from[u][v] == atloop(g.from[u][v])))
+//@ loop 2: invariant forall(u, forall(v, forall(l, wdtll(g, u, v, l) == atloop(wdtll(g, u, v, l)))))
+//@ invariant forall(u, forall(v, wdtl(g, u, v) == atloop(wdtl(g, u, v))))
+//@ invariant forall(u, forall(v, forall(l, wdfll(g, u, v, l) == (atloop(wdfll(g, u, v, l)) && !(v == id && seen(u))))))
+//@ invariant forall(u, forall(v, wdfl(g, u, v) == (atloop(wdfl(g, u, v)) && !(v == id && seen(u)))))
+//@ invariant forall(u, forall(v, wdtl(g, u, v) ==> g.to[u][v] == atloop(g.to[u][v])))
+//@ invariant forall(u, forall(v, wdfl(g, u, v) ==> g.from[u][v] == atloop(g.from[u][v])))
+
+//@ func WeightedDirectedGraph.NewWeightedLine props: C12
+//@ requires wdgInv(g) && from != nil && to != nil
+//@ requires wdids(g, from.ID(), to.ID()) ==> g.lineIDs[from.ID()][to.ID()].maxID != uid.Max || exists(x, 0, uid.Max, !has(g.lineIDs[from.ID()][to.ID()].used, x))
+//@ modifies g.lineIDs, g.lineIDs[from.ID()]
+//@ option may-panic
+//@ ensures wdgInv(g)
+//@ ensures result != nil && result.From() == from && result.To() == to
+//@ ensures wdids(g, from.ID(), to.ID()) && !has(g.lineIDs[from.ID()][to.ID()].used, result.ID())
+//@ ensures !wdfll(g, from.ID(), to.ID(), result.ID())
+
+//@ spec wul(g *WeightedUndirectedGraph, u int, v int) bool = has(g.lines, u) && has(g.lines[u], v)
+//@ spec wull(g *WeightedUndirectedGraph, u int, v int, l int) bool = has(g.lines, u) && has(g.lines[u], v) && has(g.lines[u][v], l)
+//@ spec wuids(g *WeightedUndirectedGraph, u int, v int) bool = has(g.lineIDs, u) && has(g.lineIDs[u], v)
+
+//@ spec wugInv(g *WeightedUndirectedGraph) bool = g != nil && g.nodes != nil && g.lines != nil && g.lineIDs != nil && uid.setInv(g.nodeIDs) &&
+//@   forall(u, has(g.lines, u) ==> g.lines[u] != nil) &&
+//@   forall(u, forall(v, has(g.lines, u) && has(g.lines, v) && u != v ==> g.lines[u] != g.lines[v])) &&
+//@   forall(u, forall(v, wul(g, u, v) ==> g.lines[u][v] != nil && len(g.lines[u][v]) > 0)) &&
+//@   forall(u, forall(v, forall(x, forall(y, wul(g, u, v) && wul(g, x, y) && !(u == x && v == y) ==> g.lines[u][v] != g.lines[x][y])))) &&
+//@   forall(u, forall(v, wul(g, u, v) == wul(g, v, u))) &&
+//@   forall(u, forall(v, wul(g, u, v) ==> len(g.lines[u][v]) == len(g.lines[v][u]))) &&
+//@   forall(u, forall(v, forall(l, wull(g, u, v, l) == wull(g, v, u, l)))) &&
+//@   forall(u, forall(v, wul(g, u, v) ==> has(g.nodes, u) && has(g.nodes, v))) &&
+//@   forall(u, has(g.nodes, u) ==> g.nodes[u] != nil && g.nodes[u].ID() == u) &&
+//@   forall(u, forall(v, forall(l, wull(g, u, v, l) ==> g.lines[u][v][l] != nil && g.lines[u][v][l] == g.lines[v][u][l] && g.lines[u][v][l].ID() == l &&
+//@     g.lines[u][v][l].From() != nil && g.lines[u][v][l].To() != nil &&
+//@     ((g.lines[u][v][l].From().ID() == u && g.lines[u][v][l].To().ID() == v) || (g.lines[u][v][l].From().ID() == v && g.lines[u][v][l].To().ID() == u))))) &&
+//@   forall(u, has(g.lineIDs, u) ==> g.lineIDs[u] != nil) &&
+//@   forall(u, forall(v, has(g.lineIDs, u) && has(g.lineIDs, v) && u != v ==> g.lineIDs[u] != g.lineIDs[v])) &&
+//@   forall(u, forall(v, wuids(g, u, v) ==> uid.setInv(g.lineIDs[u][v]) && g.lineIDs[u][v] != g.nodeIDs &&
+//@     g.lineIDs[u][v].used != g.nodeIDs.used && g.lineIDs[u][v].used != g.nodeIDs.free && g.lineIDs[u][v].free != g.nodeIDs.used && g.lineIDs[u][v].free != g.nodeIDs.free)) &&
+//@   forall(u, forall(v, forall(x, forall(y, wuids(g, u, v) && wuids(g, x, y) && !(u == x && v == y) ==> g.lineIDs[u][v] != g.lineIDs[x][y] &&
+//@     g.lineIDs[u][v].used != g.lineIDs[x][y].used && g.lineIDs[u][v].used != g.lineIDs[x][y].free && g.lineIDs[u][v].free != g.lineIDs[x][y].free)))) &&
+//@   forall(u, forall(v, forall(l, wull(g, u, v, l) && u <= v ==> wuids(g, u, v) && has(g.lineIDs[u][v].used, l)))) &&
+//@   forall(u, has(g.nodes, u) == has(g.nodeIDs.used, u))
+
+//@ func NewWeightedUndirectedGraph props: C12
+//@ ensures wugInv(result)
+//@ ensures forall(u, !has(result.nodes, u)) && forall(u, !has(result.lines, u))
+
+//@ func WeightedUndirectedGraph.AddNode props: C12
+//@ requires wugInv(g) && n != nil
+//@ modifies g.nodes, g.nodeIDs.used, g.nodeIDs.free, g.nodeIDs.maxID
+//@ valid !has(g.nodes, n.ID())
+//@ panics iff !valid, before-writes
+//@ ensures wugInv(g)
+//@ ensures forall(u, has(g.nodes, u) == (old(has(g.nodes, u)) || u == n.ID()))
+//@ ensures g.nodes[n.ID()] == n && forall(u, u != n.ID() ==> g.nodes[u] == old(g.nodes[u]))
+
+//@ func WeightedUndirectedGraph.HasEdgeBetween props: C12
+//@ requires wugInv(g)
+//@ ensures result == wul(g, xid, yid)
+
+//@ func WeightedUndirectedGraph.Node props: C12
+//@ requires wugInv(g)
+//@ ensures (result != nil) == has(g.nodes, id)
+//@ ensures result == g.nodes[id] && (result != nil ==> result.ID() == id)
+
+//@ func WeightedUndirectedGraph.NewNode props: C12
+//@ requires wugInv(g)
+//@ requires g.nodeIDs.maxID != uid.Max || exists(x, 0, uid.Max, !has(g.nodeIDs.used, x))
+//@ option may-panic
+//@ ensures result != nil && !has(g.nodes, result.ID())
+
+//@ func WeightedUndirectedGraph.NodeWithID props: C12
+//@ requires wugInv(g)
+//@ ensures new == !has(g.nodes, id)
+//@ ensures n != nil && n.ID() == id && (!new ==> n == g.nodes[id])
+
+//@ func WeightedUndirectedGraph.RemoveLine props: C12
+//@ requires wugInv(g)
+//@ modifies g.lines[fid], g.lines[tid], g.lines[fid][tid], g.lines[tid][fid], g.lineIDs[min(fid, tid)][max(fid, tid)].used, g.lineIDs[min(fid, tid)][max(fid, tid)].free
+//@ ensures wugInv(g)
+//@ ensures forall(u, forall(v, forall(l, wull(g, u, v, l) == (old(wull(g, u, v, l)) && !(((u == fid && v == tid) || (u == tid && v == fid)) && l == id)))))
+//@ ensures forall(u, forall(v, (wul(g, u, v) ==> old(wul(g, u, v))) && (!((u == fid && v == tid) || (u == tid && v == fid)) ==> wul(g, u, v) == old(wul(g, u, v)))))
+//@ ensures forall(u, forall(v, forall(l, wull(g, u, v, l) ==> g.lines[u][v][l] == old(g.lines[u][v][l]))))
+
+//@ func WeightedUndirectedGraph.SetWeightedLine props: C12
+//@ let fid = l.From().ID()
+//@ let tid = l.To().ID()
+//@ let xid = min(l.From().ID(), l.To().ID())
+//@ let yid = max(l.From().ID(), l.To().ID())
+//@ requires wugInv(g) && l != nil && l.From() != nil && l.To() != nil
+//@ modifies g.nodes, g.nodeIDs.used, g.nodeIDs.free, g.nodeIDs.maxID, g.lines, g.lineIDs, g.lines[fid], g.lines[tid], g.lines[fid][tid], g.lines[tid][fid], g.lineIDs[xid],
+//@   g.lineIDs[xid][yid].used, g.lineIDs[xid][yid].free, g.lineIDs[xid][yid].maxID
+//@ ensures wugInv(g)
+//@ ensures forall(u, has(g.nodes, u) == (old(has(g.nodes, u)) || u == fid || u == tid))
+//@ ensures forall(u, forall(v, forall(x, wull(g, u, v, x) == (old(wull(g, u, v, x)) || (((u == fid && v == tid) || (u == tid && v == fid)) && x == l.ID())))))
+//@ ensures forall(u, forall(v, wul(g, u, v) == (old(wul(g, u, v)) || (u == fid && v == tid) || (u == tid && v == fid))))
+//@ ensures g.lines[fid][tid][l.ID()] == l && g.lines[tid][fid][l.ID()] == l && g.nodes[tid] == l.To() && (fid != tid ==> g.nodes[fid] == l.From())
+//@ ensures forall(u, u != fid && u != tid ==> g.nodes[u] == old(g.nodes[u]))
+//@ ensures forall(u, forall(v, forall(x, old(wull(g, u, v, x)) && !(((u == fid && v == tid) || (u == tid && v == fid)) && x == l.ID()) ==> g.lines[u][v][x] == old(g.lines[u][v][x]))))
+
+//@ func WeightedUndirectedGraph.RemoveNode props: C12
+//@ requires wugInv(g)
+//@ modifies g.nodes, g.nodeIDs.used, g.nodeIDs.free, g.lines, all(g.lines[id])
+//@ ensures wugInv(g)
+//@ ensures forall(u, has(g.nodes, u) == (old(has(g.nodes, u)) && u != id))
+//@ ensures forall(u, forall(v, forall(l, wull(g, u, v, l) == (old(wull(g, u, v, l)) && u != id && v != id))))
+//@ ensures forall(u, forall(v, wul(g, u, v) == (old(wul(g, u, v)) && u != id && v != id)))
+//@ ensures forall(u, u != id ==> g.nodes[u] == old(g.nodes[u]))
+//@ ensures forall(u, forall(v, forall(l, wull(g, u, v, l) ==> g.lines[u][v][l] == old(g.lines[u][v][l]))))
+//@ loop 1: invariant forall(u, forall(v, forall(l, wull(g, u, v, l) == (atloop(wull(g, u, v, l)) && !(v == id && seen(u))))))
+//@ invariant forall(u, forall(v, wul(g, u, v) == (atloop(wul(g, u, v)) && !(v == id && seen(u)))))
+//@ invariant forall(u, forall(v, wul(g, u, v) ==> g.lines[u][v] == atloop(g.lines[u][v])))
+
+//@ func WeightedUndirectedGraph.NewWeightedLine props: C12
+//@ let xid = min(from.ID(), to.ID())
+//@ let yid = max(from.ID(), to.ID())
+//@ requires wugInv(g) && from != nil && to != nil
+//@ requires wuids(g, xid, yid) ==> g.lineIDs[xid][yid].maxID != uid.Max || exists(x, 0, uid.Max, !has(g.lineIDs[xid][yid].used, x))
+//@ modifies g.lineIDs, g.lineIDs[xid]
+//@ option may-panic
+//@ ensures wugInv(g)
+//@ ensures result != nil && result.From() == from && result.To() == to
+//@ ensures wuids(g, xid, yid) && !has(g.lineIDs[xid][yid].used, result.ID())
+//@ ensures !wull(g, from.ID(), to.ID(), result.ID()) && !wull(g, to.ID(), from.ID(), result.ID())
